@@ -200,6 +200,68 @@ theorem absCtx_congr {V V' : List F} {N N' : List Int} : ∀ (ctx : Ctx),
         hv 5 (by decide), hv 6 (by decide), hv 7 (by decide), hn,
         absT_congr l (fun j hj => h j (by simp [ctxIdxs, hj]))]
 
+/-- a context none of whose link cells is written stays linked -/
+theorem CtxLinked.congr {N N' : List Int} {n : Nat} : ∀ {ctx : Ctx} {c : Int}, CtxLinked N n c ctx →
+    (∀ i ∈ ctxIdxs ctx, nAt N' i 1 = nAt N i 1 ∧ nAt N' i 2 = nAt N i 2 ∧ nAt N' i 3 = nAt N i 3) →
+    CtxLinked N' n c ctx := by
+  intro ctx
+  induction ctx with
+  | nil => intro _ _ _; trivial
+  | cons fr rest ih =>
+    intro c h hc
+    cases fr with
+    | L i r =>
+      obtain ⟨h1, h2, h3, h4, h5, h6, h7⟩ := h
+      obtain ⟨c1, c2, c3⟩ := hc i (by simp [ctxIdxs])
+      exact ⟨h1, by rw [c1]; exact h2, by rw [c2]; exact h3, h4, by rw [c3]; exact h5,
+        h6.congr (fun j hj => hc j (by simp [ctxIdxs, hj])), ih h7 (fun j hj => hc j (by simp [ctxIdxs, hj]))⟩
+    | R l i =>
+      obtain ⟨h1, h2, h3, h4, h5, h6, h7⟩ := h
+      obtain ⟨c1, c2, c3⟩ := hc i (by simp [ctxIdxs])
+      exact ⟨h1, by rw [c1]; exact h2, by rw [c2]; exact h3, h4, by rw [c3]; exact h5,
+        h6.congr (fun j hj => hc j (by simp [ctxIdxs, hj])), ih h7 (fun j hj => hc j (by simp [ctxIdxs, hj]))⟩
+
+/-- a locally linked position is a position of a linked tree (converse of `unplug`) -/
+theorem replug {N : List Int} {n : Nat} : ∀ (ctx : Ctx) (sub : Sh), Linked N n (ctxPar ctx) sub →
+    CtxLinked N n sub.ptr ctx → Linked N n (-1) (plug sub ctx) := by
+  intro ctx
+  induction ctx with
+  | nil => intro sub h _; exact h
+  | cons fr rest ih =>
+    intro sub h hc
+    cases fr with
+    | L i r =>
+      obtain ⟨h1, h2, h3, h4, h5, h6, h7⟩ := hc
+      exact ih (.node sub i r) ⟨h1, h2, h3, h5, h, h6⟩ h7
+    | R l i =>
+      obtain ⟨h1, h2, h3, h4, h5, h6, h7⟩ := hc
+      exact ih (.node l i sub) ⟨h1, h2, h3, h5, h6, h⟩ h7
+
+/-- the frame rows are among the rows of the context -/
+theorem frameRows_sublist : ∀ (ctx : Ctx), (ctx.map Fr.idx).Sublist (ctxIdxs ctx) := by
+  intro ctx
+  induction ctx with
+  | nil => exact List.Sublist.slnil
+  | cons fr rest ih =>
+    cases fr with
+    | L i r =>
+      simp only [List.map_cons, Fr.idx, ctxIdxs]
+      exact List.Sublist.cons_cons i (ih.trans (List.sublist_append_right _ _))
+    | R l i =>
+      simp only [List.map_cons, Fr.idx, ctxIdxs]
+      exact List.Sublist.cons_cons i (ih.trans (List.sublist_append_right _ _))
+
+theorem insZ_ne_nil (vals : List F) (K : Fv F) : ∀ (sh : Sh) (c : Ctx), (sh ≠ .nil ∨ c ≠ []) → insZ vals K sh c ≠ [] := by
+  intro sh
+  induction sh with
+  | nil => intro c h; rcases h with h | h; exact absurd rfl h; simpa [insZ] using h
+  | node l i r ihl ihr =>
+    intro c _
+    simp only [insZ]
+    split
+    · exact ihl _ (Or.inr (by simp))
+    · exact ihr _ (Or.inr (by simp))
+
 /-- the array `tree_vals` after the propagation loop of `_insert_into_tree`, started below the context `ctx` with the
     child's stored maximum `cm` -/
 def propArr (V : List F) (cm : Fv F) : Ctx → List F
